@@ -21,6 +21,10 @@ import re
 from .facts import Body, callee, callee_resolved, strip_generics
 
 
+def _ctype(fb, crate):
+    return 'Rlib' if (crate, 'Rlib') in fb.available() else 'ProcMacro'
+
+
 def _shift_place(pl, dl):
     if pl is None:
         return
@@ -140,7 +144,7 @@ def _async_body(fb, crate, cb):
     aggs = [st for blk in cb.blocks for st in blk['st'] if st.get('lhs') == {'l': 0} and st['rv']['k'] == 'agg' and st['rv'].get('ak') == 'coroutine']
     if len(aggs) != 1:
         return None
-    bs = [b for b in fb.bodies_of_item(crate, cb.nroot) if b.is_coroutine and b.id == aggs[0]['rv'].get('def')]
+    bs = [b for b in fb.bodies_of_item(crate, cb.nroot, _ctype(fb, crate)) if b.is_coroutine and b.id == aggs[0]['rv'].get('def')]
     if len(bs) != 1:
         return None
     ops = []
@@ -272,7 +276,7 @@ def inlined(fb, body, keep=(), also=None, depth=4, crate=None):
         if name in chain:
             continue
         try:
-            cb = fb.body(crate, name)
+            cb = fb.body(crate, name, _ctype(fb, crate))
         except KeyError:
             cb = None
         if not eligible(fb, body, cb, keep, also):
@@ -351,7 +355,8 @@ def inlined(fb, body, keep=(), also=None, depth=4, crate=None):
 
 def closures_of(fb, body):
     """nested closure/coroutine bodies of the function and of every helper inlined into it"""
-    out = [b for b in fb.bodies_of_item(body.crate, body.nroot) if b.nid != body.nid]
+    ct = _ctype(fb, body.crate)
+    out = [b for b in fb.bodies_of_item(body.crate, body.nroot, ct) if b.nid != body.nid]
     for r in body.raw.get('extra_roots', []):
-        out.extend(b for b in fb.bodies_of_item(body.crate, r) if b.nid != r)
+        out.extend(b for b in fb.bodies_of_item(body.crate, r, ct) if b.nid != r)
     return out
